@@ -1420,7 +1420,11 @@ class H2Connection:
         # RFC 7540 Section 6.5.2.
         if SettingCodes.HEADER_TABLE_SIZE in changes:
             setting = changes[SettingCodes.HEADER_TABLE_SIZE]
-            self.encoder.header_table_size = setting.new_value
+            # Only tell the encoder about real changes: re-announcing the
+            # current size makes it forget that it still has to signal an
+            # earlier, not yet emitted, table size change to the peer.
+            if setting.new_value != setting.original_value:
+                self.encoder.header_table_size = setting.new_value
 
         if SettingCodes.MAX_FRAME_SIZE in changes:
             setting = changes[SettingCodes.MAX_FRAME_SIZE]
